@@ -222,6 +222,8 @@ def h_image(fmt: int, n: int, i0: int, i1: int, i2: int, i3: int) -> int:
         for a in range(n):
             for b in range(n):
                 if a != b and N.statement_pair(names[a], names[b]):
+                    if N.stem(names[a]) in want:
+                        return 1                         # two pairs named after one stem: C06's known finding (F7b), not decided here
                     want[N.stem(names[a])] = [a, b]
                     used |= {a, b}
         for a in range(n):
